@@ -358,6 +358,9 @@ type c17TokCase struct {
 	Mode  string  `json:"mode"` // "dispatch", "word", "blank"
 	Regs  []c17Op `json:"regs"` // Ref: 0 = disable / no state, 1 = enable / word state, 2 = enable / symbol state
 	Input string  `json:"input"`
+	// Mid (dispatch): the registrations happen while the tokenizer is reading Input - one token is fetched from the
+	// same reader before every registration; what is read after the last one follows the final tables
+	Mid bool `json:"mid,omitempty"`
 }
 
 func checkC17Tok(c c17TokCase) *evid.Fail {
@@ -373,7 +376,18 @@ func checkC17Tok(c c17TokCase) *evid.Fail {
 			other.ClearWordChars()
 			other.SetWordChars('0', '9', true)
 			states := []tokenizers.ITokenizerState{nil, tok.WordState(), tok.SymbolState(), other}
+			consumed, midDone := 0, false
+			if c.Mid {
+				tok.SetReader(rio.NewStringScanner(c.Input))
+			}
 			for i, r := range c.Regs {
+				if c.Mid && !midDone {
+					if t := tok.NextToken(); t == nil || t.Type() == tokenizers.Eof {
+						midDone = true
+					} else {
+						consumed += len([]rune(t.Value()))
+					}
+				}
 				if r.Kind == 2 {
 					tok.ClearCharacterStates()
 				} else {
@@ -390,6 +404,39 @@ func checkC17Tok(c c17TokCase) *evid.Fail {
 				case 3:
 					tok.SetQuoteState(generic.NewGenericQuoteState())
 					tok.SetNumberState(generic.NewGenericNumberState())
+				}
+			}
+			if c.Mid && !midDone && consumed <= len([]rune(c.Input)) {
+				// the rest of the text, read on through the same reader, against a tokenizer that got the same calls
+				// before it ever saw a reader
+				rest := string([]rune(c.Input)[consumed:])
+				var got, want []string
+				for n := 0; n <= len([]rune(rest))+2; n++ {
+					t := tok.NextToken()
+					if t == nil {
+						break
+					}
+					got = append(got, fmt.Sprintf("%s(%q)", tokTypeName(t.Type()), t.Value()))
+					if t.Type() == tokenizers.Eof {
+						break
+					}
+				}
+				ref := generic.NewGenericTokenizer()
+				ref.ClearCharacterStates()
+				refStates := []tokenizers.ITokenizerState{nil, ref.WordState(), ref.SymbolState(), other}
+				for _, r := range c.Regs {
+					if r.Kind == 2 {
+						ref.ClearCharacterStates()
+					} else {
+						ref.SetCharacterState(r.Start, r.End, refStates[r.Ref])
+					}
+				}
+				for _, t := range ref.TokenizeBuffer(rest) {
+					want = append(want, fmt.Sprintf("%s(%q)", tokenTypeNameOf(t), t.Value()))
+				}
+				if fmt.Sprint(got) != fmt.Sprint(want) {
+					res = evid.F("dispatch-mid-stream", "registrations %v made while reading %q (a token fetched before each): the rest %q is read as %v, a tokenizer configured the same way before reading gives %v", c.Regs, c.Input, rest, got, want)
+					return
 				}
 			}
 			for _, ch := range []rune(c.Input) {
@@ -481,6 +528,8 @@ func checkC17Tok(c c17TokCase) *evid.Fail {
 	return res
 }
 
+func tokenTypeNameOf(t *tokenizers.Token) string { return tokTypeName(t.Type()) }
+
 func init() { regReplay("C17.tok", checkC17Tok) }
 
 func TestC17_RapidTokenizerMaps(t *testing.T) {
@@ -541,7 +590,12 @@ func TestC17_RapidTokenizerMaps(t *testing.T) {
 			_ = m
 			sb.WriteRune(ch)
 		}
-		c := c17TokCase{mode, regs, sb.String()}
+		c := c17TokCase{Mode: mode, Regs: regs, Input: sb.String()}
+		if mode == "dispatch" && rapid.IntRange(0, 2).Draw(rt, "midstream") == 0 {
+			// a longer text of plain and registered characters, read while the registrations are made
+			c.Mid = true
+			c.Input = rapid.SampledFrom([]string{"ab c1 ", "x y z w ", "é中 a ", "1 2 3 4 5 6 ", ""}).Draw(rt, "midprefix") + c.Input + " ab " + c.Input
+		}
 		rec.Case(jsonStr(c), nt, func() interface{} { return c }, "mode:"+mode)
 		if f := checkC17Tok(c); f != nil {
 			if rec.Fail(f, c) {
